@@ -108,6 +108,12 @@ pub fn build_template(t: &str, src: &Path, dst: &Path, names: &[&str]) {
             add("c-Y".into(), 'Y', 7);
             add("same-S".into(), 'S', 4);
         }
+        "T10" => {
+            // one file that fits a pipe buffer but not a small remote file-size limit
+            add("a-Z".into(), 'Z', 9);
+            add("sub2/b-A".into(), 'A', 40_000);
+            add("c-Y".into(), 'Y', 7);
+        }
         "T9" => {
             add("a-Z".into(), 'Z', 9);
             add("sub2/b-A".into(), 'A', 600_001);
@@ -128,7 +134,7 @@ pub fn build_template(t: &str, src: &Path, dst: &Path, names: &[&str]) {
         }
         _ => {}
     }
-    if t == "T7" || t == "T8" || t == "T9" {
+    if t == "T7" || t == "T8" || t == "T9" || t == "T10" {
         // minimal tail: one destination-only file (deleted with --delete) and one in a directory of its own
         put_file(dst, "only-dst", b"dst only", 1_400_000_000, 0);
         put_file(dst, "sub/only-dst-2", b"dst only 2", 1_400_000_001, 0);
@@ -510,6 +516,16 @@ pub fn run_c04(ctx: &Ctx) -> ! {
                     violations.push(Violation::new("fault_not_reported", format!("[{} with the ssh of one transfer dying ({how} after {nb} bytes)] exit 0 although one transfer cannot have completed", cfg_name(&c)), json!({"config": cfg_name(&c), "fault": how})).with("direction", json!(dir)).with("fault", json!(how)));
                 }
             }
+        }
+    }
+    // a fault on the REMOTE side of one push while the transport stays healthy (file-size limit on the remote command)
+    for (limit, pat) in [(4096usize, "b-A"), (512, "b-A"), (4096, "mkdir"), (512, "a-Z")] {
+        let c = Cfg { dir: "push", delete: true, exclude: "", jobs: 1, verbose: false, template: "T10" };
+        let p = prepare(&c, &["a"], "c04rf");
+        let out = run_sync_env(&p.env, &c, &[], None, &[("VSTANDIN_FAULT".to_string(), format!("fsize:{limit}:{pat}"))]);
+        evals.fetch_add(1, Ordering::Relaxed);
+        if let Some((k, m, path)) = c04_oracle(&c, &p, &out) {
+            violations.push(Violation::new(&k, format!("[{} with the remote command of {pat:?} limited to files of {limit} bytes] exit {:?}: {m}; stderr tail: {}", cfg_name(&c), out.code, out.stderr.lines().last().unwrap_or("")), json!({"config": cfg_name(&c), "path": path, "fault": "remote-fsize"})).with("direction", json!("push")).with("fault", json!("remote-fsize")));
         }
     }
     // completion orders of K parallel transfers over SSH (gate in the stand-in)
